@@ -68,7 +68,7 @@ static void roundtrip(Ctx& cx, const std::string& text0, P parse_fn)
 enum { BINARY, PREFIX, POSTFIX, TERNARY, INDEX, CALL, FIELD, QUANT };
 struct Op { const char* tok; int form; };
 static const Op OPS[] = {
-    {"*", BINARY}, {"/", BINARY}, {"%", BINARY}, {"+", BINARY}, {"-", BINARY}, {"<<", BINARY}, {">>", BINARY}, {"<?", BINARY}, {">?", BINARY}, {"<", BINARY}, {"<=", BINARY},
+    {"**", BINARY}, {"*", BINARY}, {"/", BINARY}, {"%", BINARY}, {"+", BINARY}, {"-", BINARY}, {"<<", BINARY}, {">>", BINARY}, {"<?", BINARY}, {">?", BINARY}, {"<", BINARY}, {"<=", BINARY},
     {">=", BINARY}, {">", BINARY}, {"==", BINARY}, {"!=", BINARY}, {"&", BINARY}, {"^", BINARY}, {"|", BINARY}, {"&&", BINARY}, {"||", BINARY}, {"xor", BINARY}, {"imply", BINARY},
     {"=", BINARY}, {"+=", BINARY}, {"<<=", BINARY},
     {"-", PREFIX}, {"!", PREFIX}, {"++", PREFIX}, {"--", PREFIX}, {"++", POSTFIX}, {"--", POSTFIX},
@@ -92,7 +92,7 @@ static std::string mkexpr(const Op& o, const std::string x[3])
     return "";
 }
 
-extern "C" void harness_operator_pairs()  /* vf: bounds=parent_operator_x_child_operator_x_child_position_over_38_operators(22_binary,3_assignment,prefix/postfix,inline-if,index,call,field,quantifiers);depth_2 */
+extern "C" void harness_operator_pairs()  /* vf: bounds=parent_operator_x_child_operator_x_child_position_over_39_operators(23_binary,3_assignment,prefix/postfix,inline-if,index,call,field,quantifiers);depth_2 */
 {
     Ctx cx;
     vf_assert(cx.declare(DECLS) == 0, "declarations-accepted");
@@ -167,5 +167,26 @@ extern "C" void harness_queries()  /* vf: bounds=query_forms_of_the_property(A[]
     case 35: t = "Pr[" + bnd + runs + "] (" + pq + " q) " + cmp + " 0.25"; break;
     }
     roundtrip(cx, t, [&](const std::string& s) { QB qb(cx.doc); qb.query = expression_t(); int rc = parseProperty(s.c_str(), &qb, ""); return rc == 0 ? qb.query : expression_t(); });
+    vf_reach("end");
+}
+
+// every built-in function: the printer's name table and the lexer's keyword table must agree (61 functions, arity from the grammar)
+extern "C" void harness_builtin_functions()  /* vf: bounds=61_built-in_functions_with_their_arity,as_a_top-level_operand_and_nested_in_another_call reach=end */
+{
+    struct Fn { const char* name; int arity; };
+    static const Fn FNS[] = {{"abs", 1}, {"fabs", 1}, {"fmod", 2}, {"fma", 3}, {"fmax", 2}, {"fmin", 2}, {"fdim", 2}, {"exp", 1}, {"exp2", 1}, {"expm1", 1}, {"ln", 1}, {"log", 1}, {"log10", 1}, {"log2", 1}, {"log1p", 1},
+        {"pow", 2}, {"sqrt", 1}, {"cbrt", 1}, {"hypot", 2}, {"sin", 1}, {"cos", 1}, {"tan", 1}, {"asin", 1}, {"acos", 1}, {"atan", 1}, {"atan2", 2}, {"sinh", 1}, {"cosh", 1}, {"tanh", 1}, {"asinh", 1}, {"acosh", 1}, {"atanh", 1},
+        {"erf", 1}, {"erfc", 1}, {"tgamma", 1}, {"lgamma", 1}, {"ceil", 1}, {"floor", 1}, {"trunc", 1}, {"round", 1}, {"fint", 1}, {"ldexp", 2}, {"ilogb", 1}, {"logb", 1}, {"nextafter", 2}, {"copysign", 2}, {"fpclassify", 1},
+        {"isfinite", 1}, {"isinf", 1}, {"isnan", 1}, {"isnormal", 1}, {"signbit", 1}, {"isunordered", 1}, {"random", 1}, {"random_arcsine", 2}, {"random_beta", 2}, {"random_gamma", 2}, {"random_normal", 2}, {"random_poisson", 1},
+        {"random_tri", 3}, {"random_weibull", 2}};
+    Ctx cx;
+    vf_assert(cx.declare(DECLS) == 0, "declarations-accepted");
+    int f = vf_pick("!function", 61), nested = vf_pick("!nested", 2);
+    static const char* ARGS[] = {"dd", "0.5", "a + 2.5"};
+    std::string call = std::string(FNS[f].name) + "(";
+    for (int k = 0; k < FNS[f].arity; k++) call += std::string(k ? ", " : "") + ARGS[k];
+    call += ")";
+    std::string t = nested ? "fmax(" + call + ", 0.25) * dd" : call + " + dd";
+    roundtrip(cx, t, [&](const std::string& s) { return cx.expr(s.c_str()); });
     vf_reach("end");
 }
